@@ -100,6 +100,27 @@ class ScandirCounter:
 
 
 @contextlib.contextmanager
+def watchdog(seconds=3.0):
+    """Raise HarnessBudget if the body runs longer than `seconds` (catastrophic regex backtracking in the generated
+    regex is a cost, not a property; such cases are skipped and counted, never reported)."""
+    import signal
+
+    def handler(signum, frame):
+        raise HarnessBudget('watchdog %.1fs' % seconds)
+    try:
+        old = signal.signal(signal.SIGALRM, handler)
+    except ValueError:      # not in the main thread: no watchdog available
+        yield
+        return
+    signal.setitimer(signal.ITIMER_REAL, seconds)
+    try:
+        yield
+    finally:
+        signal.setitimer(signal.ITIMER_REAL, 0)
+        signal.signal(signal.SIGALRM, old)
+
+
+@contextlib.contextmanager
 def temp_root():
     d = tempfile.mkdtemp(prefix='wcverif-')
     try:
